@@ -452,7 +452,7 @@ func (env *SpecEnv) fieldAddrT(e ast.Expr) (PtrV, int, int, types.Type) {
 		specErr("not a field selector")
 	}
 	base := env.evalTV(sel.X)
-	obj, index, _ := types.LookupFieldOrMethod(base.t, true, env.pkgOrNil(), sel.Sel.Name)
+	obj, index := lookupField(base.t, env.pkgOrNil(), sel.Sel.Name)
 	fv, ok := obj.(*types.Var)
 	if !ok || !fv.IsField() {
 		specErr("no field %s in %v", sel.Sel.Name, base.t)
@@ -503,7 +503,7 @@ func (env *SpecEnv) evalSelector(x *ast.SelectorExpr) TV {
 	if base.t == nil {
 		specErr("selector on untyped value")
 	}
-	obj, index, _ := types.LookupFieldOrMethod(base.t, true, env.pkgOrNil(), x.Sel.Name)
+	obj, index := lookupField(base.t, env.pkgOrNil(), x.Sel.Name)
 	fv, ok := obj.(*types.Var)
 	if !ok || !fv.IsField() {
 		specErr("no field %s in %v", x.Sel.Name, base.t)
@@ -968,3 +968,24 @@ func (env *SpecEnv) evalCall(x *ast.CallExpr) TV {
 }
 
 var _ = strings.TrimSpace
+
+// lookupField: field selection as in Go, and additionally direct unexported fields of types from other
+// packages (contracts of external functions talk about them, e.g. reflect.Value.ptr).
+func lookupField(t types.Type, pkg *types.Package, name string) (types.Object, []int) {
+	obj, index, _ := types.LookupFieldOrMethod(t, true, pkg, name)
+	if obj != nil {
+		return obj, index
+	}
+	u := t.Underlying()
+	if p, ok := u.(*types.Pointer); ok {
+		u = p.Elem().Underlying()
+	}
+	if st, ok := u.(*types.Struct); ok {
+		for i := 0; i < st.NumFields(); i++ {
+			if st.Field(i).Name() == name {
+				return st.Field(i), []int{i}
+			}
+		}
+	}
+	return nil, nil
+}
